@@ -14,6 +14,7 @@ noticed a truncated buffer) — these are the regression probes of the check; th
 what held before the fixes.
 -/
 import Osmium.Lemmas.Decomp
+import Osmium.Generated.Consts
 
 namespace Osmium.Props.C09
 
@@ -424,5 +425,12 @@ theorem own_output_roundtrip (cfg : Cfg) (hc : CfgOk cfg) (c : Comp) (m : Mode) 
 
 /-- non-vacuity -/
 example : readAll cfg64 Fixes.all .bzip2 .fd (compressorOutput [[1, 2], [], [3]] 40) = .ok [1, 2, 3] := by rfl
+
+/-- Tie of the wrappers' buffer constants to the CURRENT source (regenerated `Generated/Consts.lean`):
+    the default output step of the model configuration is the `buffer_size` of both buffer
+    decompressors (the input buffer size `ibs` is a parameter of every theorem). -/
+theorem consts_tie_decomp :
+    ({ ibs := 0 } : Cfg).ostep = Osmium.Generated.Consts.gzipBufferStep ∧ ({ ibs := 0 } : Cfg).ostep = Osmium.Generated.Consts.bzip2BufferStep ∧
+    0 < Osmium.Generated.Consts.decompInputBufferSize := by decide
 
 end Osmium.Props.C09
